@@ -1,3 +1,4 @@
+import Firebolt.Properties.TransBase
 import Firebolt.Properties.C07
 import Firebolt.Properties.RefreshConc
 import Firebolt.Generated.Source
@@ -218,6 +219,45 @@ theorem source_kcSetup : GeneratedSrc.kcSetup = ExpectedSrc.kcSetup := by rfl
 
 /-! ### influence closure: the pinned functions, and every function of the repository that writes a struct field or package
 variable they read, are unchanged (digests regenerated from /repo on every run; a difference names the functions) -/
+/-! ### The code itself, translated (`Generated/Trans.lean`, rewritten from /repo on every run by extractor/translate.go)
+
+The `translated_*` theorems are about MiniGo terms the translator produced from the current Go source: for every
+environment the translated fragment does what the hand-written model function says.  They are semantic obligations —
+a rewrite that preserves the behaviour keeps them provable, a changed comparison, bound or argument does not. -/
+section Translated
+open Firebolt.MiniGo Firebolt.TransBase
+
+/-- the candidate-building iteration of RefreshAssignments: one lookup in the tracker, one in the active map, and the
+resume offset `candFrom` (progress of the same request is kept, progress of another request is not — F10) -/
+theorem translated_refreshCandidateBody (σ : Env) :
+    let r := run Trans.refreshCandidateBody σ
+    r.stuck = false ∧ r.ret = none ∧
+    r.calls = [("rc.tracker.GetRecoveryRequest", [σ "partition.Partition"]), ("lookup rc.activePartitionMap", [σ "partition.Partition"])] ∧
+    (σ "rc.tracker.GetRecoveryRequest#0" = 0 → r.env "recoveryCandidates[partition.Partition]" = σ "recoveryCandidates[partition.Partition]") ∧
+    (σ "rc.tracker.GetRecoveryRequest#0" ≠ 0 →
+      r.env "fromOffset" = candFrom (σ "lookup rc.activePartitionMap#1" != 0) (σ "recoveryState.fromOffset") (σ "recoveryState.toOffset")
+                              (σ "recoveryRequest.FromOffset") (σ "recoveryRequest.ToOffset")) := by
+  by_cases h0 : σ "rc.tracker.GetRecoveryRequest#0" = 0 <;>
+  by_cases h1 : σ "lookup rc.activePartitionMap#1" = 0 <;>
+  by_cases h2 : σ "recoveryState.toOffset" = σ "recoveryRequest.ToOffset" <;>
+  by_cases h3 : σ "recoveryState.fromOffset" > σ "recoveryRequest.FromOffset" <;>
+  minigo_simp [Trans.refreshCandidateBody, candFrom, h0, h1, h2, h3] <;> (try omega)
+
+/-- the model's candidate step picks the same resume offset -/
+theorem model_candStep_candFrom (s : St) (acc : AList Active) (p : Int) :
+    candStep s acc p =
+      match Tracker.get s.tracker p with
+      | none => acc
+      | some r =>
+        let f := match s.active.get? p with
+          | some a => candFrom true a.fromO a.toO r.fromO r.toO
+          | none => r.fromO
+        acc.set p ⟨f, f, r.toO⟩ := by
+  unfold candStep candFrom
+  cases Tracker.get s.tracker p <;> simp
+  cases s.active.get? p <;> simp
+end Translated
+
 theorem closure_unchanged : GeneratedClo.C09 = ExpectedClo.C09 := by rfl
 
 end Firebolt.C09
